@@ -120,7 +120,7 @@ def gen(rng, tier, run):
         if flags:
             a, b = rng.choice(flags)
             off = rng.randrange(a, b + 1)
-    if rng.random() < 0.12:
+    if rng.random() < 0.18:
         # inside the number of a line the scanner takes numbers from (batch counts, task counts, times); listings of
         # parallel runs (other code paths of the scanner) half of the time
         para = [n for n in small if b'number of tasks' in files[n]['data'][:20000]]
@@ -132,7 +132,8 @@ def gen(rng, tier, run):
         if keyed:
             a, b = rng.choice(keyed)
             pos = info['data'].find(key, a) + len(key)
-            off = rng.randrange(min(pos, b), b + 1)
+            # right behind the key words (before / inside the first number) half of the time
+            off = min(b, pos + rng.randrange(0, 5)) if rng.random() < 0.5 else rng.randrange(min(pos, b), b + 1)
         else:
             off = rng.randrange(0, len(info['data']) + 1)
     if rng.random() < 0.05:
